@@ -8,7 +8,7 @@ from sa.flow import show, subterms
 from sa.model import AnalysisError, norm, parent, walk_no_nested
 from sa.rules import construct_text
 
-from .common import include_rules, alts, is_call, is_const, prov, unshipped_modules
+from .common import commands, need, include_rules, alts, is_call, is_const, prov, unshipped_modules
 
 ENUM = ("os.listdir", "os.scandir", "os.walk", "os.fwalk", "glob.glob", "glob.iglob")
 ENUM_M = ("iterdir", "glob", "rglob")
@@ -530,6 +530,37 @@ def run(report, p):
                 r5.check(True, f, n, "")
                 continue
             r5.check(False, f, n, f"{what} is applied to a path that contains the absolute location of the root ({d}): the outcome depends on the names of the folders the tree is stored under", construct=f"{what} on absolute path: {norm(n)[:70]}")
+
+    # ------------------------------------------------------------------ R13.8
+    r8 = report.rule(
+        "R13.8",
+        "a record only carries what a copy of the tree carries with it - name, content, size, modification time: nothing create / flatten reach reads the parts of a "
+        "file's status that belong to THIS copy (inode change time st_ctime / getctime, birth time, access time, inode and device numbers, link count, owner) - a "
+        "value derived from them makes two byte-identical trees at different locations produce different manifests and chain hashes",
+        1,
+    )
+    _COPY_BOUND = ("st_ctime", "st_ctime_ns", "st_birthtime", "st_atime", "st_atime_ns", "st_ino", "st_dev", "st_nlink", "st_uid", "st_gid")
+    n8 = 0
+    cmds8 = commands(p)
+    reach8 = set(p.reachable([need(cmds8, "create").qual, need(cmds8, "flatten").qual]))
+    for fq in sorted(reach8):
+        f8 = p.funcs[fq]
+        if f8.module.name in unshipped:
+            continue
+        n8 += 1
+        for n in walk_no_nested(f8.node):
+            hit = None
+            if isinstance(n, ast.Attribute) and n.attr in _COPY_BOUND and isinstance(n.ctx, ast.Load):
+                hit = n.attr
+            elif isinstance(n, ast.Call) and norm(n.func) in ("os.path.getctime", "os.path.getatime"):
+                hit = norm(n.func)
+            elif isinstance(n, ast.Call) and isinstance(n.func, ast.Name) and n.func.id == "getattr" and len(n.args) >= 2 and isinstance(n.args[1], ast.Constant) and n.args[1].value in _COPY_BOUND:
+                hit = n.args[1].value
+            if hit:
+                r8.instance(f8, n, f"{f8.name}: {hit}")
+                r8.check(False, f8, n, f"`{norm(n)[:60]}` reads {hit}, a property of this COPY of the file (it changes when the tree is copied, moved to another volume or restored), on the way to a record: the manifests of two identical trees differ", construct=f"{f8.name}: {hit} read")
+    r8.instance(None, None, f"{n8} functions reachable from create / flatten scanned")
+    r8.check(True, None, None, "")
 
     # ---- rules shared with other properties (same mechanism, same rule, reported under every property it can break)
     # ------------------------------------------------------------------ R13.7
